@@ -701,10 +701,16 @@ def parse_template(text):
                 elif kind == 'insert':
                     mm = re.match(r'^(before|after|entry)\s*(?:"((?:[^"\\]|\\.)*)")?\s*$', arg.strip())
                     ml = re.match(r'^(loop-start|loop-end)\s+(\d+)\s*$', arg.strip())
-                    mlet = re.match(r'^after-let\s+(\w+)\s*$', arg.strip())
+                    mlet = re.match(r'^(after-let|before-let)\s+(\w+)\s*$', arg.strip())
+                    mla = re.match(r'^loop-after\s+(\d+)\s*$', arg.strip())
                     if mlet:
-                        # structural anchor: after the END of the statement `let [mut] <name> .. ;` (first such statement)
-                        d.inserts.append(('after-let', mlet.group(1), sec_lines))
+                        # structural anchor: after the END / before the START of the statement `let [mut] <name> .. ;`
+                        d.inserts.append((mlet.group(1), mlet.group(2), sec_lines))
+                        section, sec_lines = None, None
+                        return
+                    if mla:
+                        # structural anchor: right after the k-th source loop
+                        d.inserts.append(('loop-after', int(mla.group(1)), sec_lines))
                         section, sec_lines = None, None
                         return
                     if ml:
@@ -1211,6 +1217,21 @@ def lift_one(d, repo, canary=False, rename_suffix=None, path_map=None):
         txt = '\n'.join(lines) + '\n'
         if mode == 'entry':
             body.insert(1, '\n' + txt)
+        elif mode == 'loop-after':
+            lp = [(off, kw) for (off, kw) in loop_positions(body, 0, len(body.s)) if body.o[off] is not None]
+            if anchor < 1 or anchor > len(lp):
+                raise LiftError("%s: insert loop-after: loop %d not found (body has %d loops)" % (info['name'], anchor, len(lp)))
+            bo = loop_body_open(body, lp[anchor - 1][0])
+            bc = match_close(body.s, body.k, bo)
+            le = body.s.find('\n', bc)
+            le = len(body.s) - 1 if le < 0 else le + 1
+            body.insert(le, txt)
+        elif mode == 'before-let':
+            ms_ = [m_ for m_ in code_finditer(body.s, body.k, r'\blet\s+(?:mut\s+)?\(?\s*(?:mut\s+)?' + re.escape(anchor) + r'\b') if body.o[m_.start()] is not None]
+            if not ms_:
+                raise LiftError("%s: insert before-let: no `let %s` in the body" % (info['name'], anchor))
+            ls = body.s.rfind('\n', 0, ms_[0].start()) + 1
+            body.insert(ls, txt)
         elif mode == 'after-let':
             ms_ = [m_ for m_ in code_finditer(body.s, body.k, r'\blet\s+(?:mut\s+)?\(?\s*(?:mut\s+)?' + re.escape(anchor) + r'\b') if body.o[m_.start()] is not None]
             if not ms_:
